@@ -1,6 +1,6 @@
 rc_target("c13_uri_parse", flavour="asan")
 rc_target("c13_uri_codec", flavour="asan")
-plan("C13", [T("c13_uri_parse", 50000, 500000), T("c13_uri_codec", 50000, 500000)], min_nt=38000,
+plan("C13", [T("c13_uri_parse", 30000, 300000), T("c13_uri_codec", 30000, 300000)], min_nt=23000,
      rule="URI texts assembled from generated components and compared accessor by accessor; byte strings through both encoders, the decoder "
           "and the query iterator against reference implementations written in the harness",
      technique="property-based testing (rapidcheck), construction with remembered expectations: the harness assembles "
@@ -10,7 +10,7 @@ plan("C13", [T("c13_uri_parse", 50000, 500000), T("c13_uri_codec", 50000, 500000
                "accessors are read); builder output is compared with the assembled text, with the options, and re-parsed; percent-coding is "
                "compared with a reference encoder/decoder and an explicit output-alphabet scan; query iteration (uri form, plain form, both "
                "list forms) with a reference split",
-     level_text="Generated search: ~400 000 cases per quick run. Parser/builder: scheme present (72 %) or absent, user-info absent / user / "
+     level_text="Generated search: ~240 000 cases per quick run. Parser/builder: scheme present (72 %) or absent, user-info absent / user / "
                 "user:password with empty parts, reg-name / IPv4 / bracketed literal (IPv6, zone id, IPvFuture) / empty host, port absent, empty, "
                 "0, 1..65535, up to 2^32-1, 2^32 and above, 20 digits on both sides of 2^64, leading zeros, non-numeric; path empty or '/'-rooted "
                 "segments with ':' and '@'; query absent, empty, or pairs with empty pairs, missing '=', repeated '&', '/' and '?'; 30 % of the "
